@@ -122,7 +122,7 @@ Fixpoint mr_ind' (P : mr -> Prop)
   end.
 
 (** ** the well-formedness conditions as propositions *)
-Record WFnode (n s e : N) (m : option matched) (ins : list (N * N)) (sp : list span_t) : Prop := {
+Record WFnode (n s e : N) (m : option matched) (ins : list (N * N)) (sp : list span_t) (prod : bool) : Prop := {
   wn_span : s <= e /\ e <= n;
   wn_nest : forall c, In c sp -> s <= fst c /\ fst c <= snd c /\ snd c <= e;
   wn_disj : forall c c', In c sp -> In c' sp -> fst c < fst c' -> snd c <= fst c';
@@ -132,7 +132,7 @@ Record WFnode (n s e : N) (m : option matched) (ins : list (N * N)) (sp : list s
   wn_nonempty : ins = [] \/ 0 < n;
   wn_matched : match m with
                | None => True
-               | Some (MKind _) => s <> e \/ ins <> []
+               | Some (MKind _) => s <> e \/ ins <> [] \/ prod = true
                | Some (MNewtype _) => e = s + 1 /\ ins = [] /\ sp = []
                end
 }.
@@ -140,7 +140,7 @@ Record WFnode (n s e : N) (m : option matched) (ins : list (N * N)) (sp : list s
 Lemma is_empty_true {A} (l : list A) : is_empty l = true <-> l = [].
 Proof. destruct l; cbn; intuition congruence. Qed.
 
-Lemma wf_node_WFnode n s e m ins sp : wf_node n s e m ins sp = true <-> WFnode n s e m ins sp.
+Lemma wf_node_WFnode n s e m ins sp prod : wf_node n s e m ins sp prod = true <-> WFnode n s e m ins sp prod.
 Proof.
   unfold wf_node. repeat rewrite andb_true_iff. split.
   - intros [[[[[[[[H1 H2] H3] H4] H5] H6] H7] H8] H9].
@@ -160,9 +160,10 @@ Proof.
       apply N.leb_le in Ha, Hb. lia.
     + apply orb_true_iff in H8 as [H8|H8]; [left; now apply is_empty_true | right; now apply N.ltb_lt in H8].
     + destruct m as [[k|k]|]; [| |exact I].
-      * apply orb_true_iff in H9 as [H9|H9].
+      * apply orb_true_iff in H9 as [H9|H9]; [apply orb_true_iff in H9 as [H9|H9]|].
         -- left. apply negb_true_iff in H9. now apply N.eqb_neq in H9.
-        -- right. apply negb_true_iff in H9. intros ->. discriminate.
+        -- right. left. apply negb_true_iff in H9. intros ->. discriminate.
+        -- right. now right.
       * repeat rewrite andb_true_iff in H9. destruct H9 as [[Ha Hb] Hc].
         apply N.eqb_eq in Ha. apply is_empty_true in Hb, Hc. auto.
   - intros [[H1 H2] H3 H4 H5 H6 H7 H8 H9].
@@ -179,9 +180,10 @@ Proof.
     + apply forallb_forall. intros q Hq. destruct (H7 q Hq). rewrite andb_true_iff. split; now apply N.leb_le.
     + apply orb_true_iff. destruct H8 as [->|H8]; [now left | right; now apply N.ltb_lt].
     + destruct m as [[k|k]|]; [| |reflexivity].
-      * apply orb_true_iff. destruct H9 as [H9|H9].
-        -- left. apply negb_true_iff. now apply N.eqb_neq.
-        -- right. destruct ins; [congruence|reflexivity].
+      * destruct H9 as [H9|[H9|H9]].
+        -- apply orb_true_iff. left. apply orb_true_iff. left. apply negb_true_iff. now apply N.eqb_neq.
+        -- apply orb_true_iff. left. apply orb_true_iff. right. destruct ins; [congruence|reflexivity].
+        -- apply orb_true_iff. now right.
       * destruct H9 as (-> & -> & ->). now rewrite N.eqb_refl.
 Qed.
 
@@ -228,7 +230,8 @@ Section Assemble.
         cur <= cur' /\ cur' <= e /\
         (cur' = cur \/ exists d, In d ds /\ cur' = snd (fst d)) /\
         leaves_l out' = leaves_l out ++ ids ts cur cur' /\
-        (forall t, In t out -> In t out').
+        (forall t, In t out -> In t out') /\
+        (forall d l t, In d ds -> snd d = Some l -> In t l -> In t out').
   Proof.
     induction ds as [|d ds IH]; intros cur out Hg Hd Hc Hcur Hp He Hn.
     - exists cur, out. cbn. rewrite ids_same, app_nil_r. repeat split; auto; lia.
@@ -239,7 +242,7 @@ Section Assemble.
       cbn [map] in Hc. apply chain_ok_cons in Hc as [Hc1 Hc2]. cbn [fst snd] in Hc1.
       assert (cur = p) by (apply Hcur; discriminate). subst cur.
       cbn [run_children].
-      destruct (IH ce (out ++ l) Hg2 Hd2 Hc2) as (cur' & out' & Hrun & Hle & Hle' & Hwhich & Hleaves & Hincl); try lia.
+      destruct (IH ce (out ++ l) Hg2 Hd2 Hc2) as (cur' & out' & Hrun & Hle & Hle' & Hwhich & Hleaves & Hincl & Hkids); try lia.
       { intros Hne. destruct ds as [|d' ds']; [congruence|].
         inversion Hd2 as [|? ? Hd' _]; subst. destruct Hd' as (Hd' & _).
         apply (Hc1 (fst d')); [now left | now symmetry]. }
@@ -249,6 +252,9 @@ Section Assemble.
         * exists d. split; [now right | reflexivity].
       + rewrite Hleaves, leaves_l_app, Hl, <- app_assoc. f_equal. apply ids_app; lia.
       + intros t Ht. apply Hincl. apply in_or_app. now left.
+      + intros d l0 t [<-|Hd0] Hl0 Ht.
+        * cbn [snd] in Hl0. injection Hl0 as <-. apply Hincl. apply in_or_app. now right.
+        * eapply Hkids; eauto.
   Qed.
 
   Lemma metas_at_spec p ins :
@@ -275,9 +281,11 @@ Section Assemble.
         now apply (in_map (fun i => Meta (snd i) p)).
   Qed.
 
-  Variables (s e : N) (m : option matched) (ins : list (N * N)) (rs : list child_r).
+  Variables (s e : N) (m : option matched) (ins : list (N * N)) (rs : list child_r) (prod : bool).
   Hypothesis Hgood : Forall good_r rs.
-  Hypothesis Hwf : WFnode n s e m ins (map fst rs).
+  Hypothesis Hwf : WFnode n s e m ins (map fst rs) prod.
+  (** if the node is said to produce through a child, some child result is non-empty *)
+  Hypothesis Hprod : prod = true -> exists r l, In r rs /\ snd r = Some l /\ l <> [].
 
   Definition KP (k : N) : Prop :=
     (exists q, In q ins /\ fst q = k) \/ (exists r, In r rs /\ fst (fst r) = k).
@@ -285,8 +293,8 @@ Section Assemble.
   Lemma KP_bounds k : KP k -> s <= k /\ k <= e.
   Proof.
     intros [(q & Hq & <-)|(r & Hr & <-)].
-    - now apply (wn_ins _ _ _ _ _ _ Hwf).
-    - destruct (wn_nest _ _ _ _ _ _ Hwf (fst r)) as (? & ? & ?); [now apply in_map|]. lia.
+    - now apply (wn_ins _ _ _ _ _ _ _ Hwf).
+    - destruct (wn_nest _ _ _ _ _ _ _ Hwf (fst r)) as (? & ? & ?); [now apply in_map|]. lia.
   Qed.
 
   Lemma step_spec p cur out :
@@ -297,11 +305,12 @@ Section Assemble.
       (forall k, KP k -> p < k -> cur' <= k) /\
       leaves_l out' = leaves_l out ++ ids ts cur cur' /\
       (forall t, In t out -> In t out') /\
-      (forall q, In q ins -> fst q = p -> In (Meta (snd q) p) out').
+      (forall q, In q ins -> fst q = p -> In (Meta (snd q) p) out') /\
+      (forall r l t, In r rs -> fst (fst r) = p -> snd r = Some l -> In t l -> In t out').
   Proof.
     intros Hk Hs Hcp.
     destruct (KP_bounds p Hk) as [Hsp Hpe].
-    destruct (wn_span _ _ _ _ _ _ Hwf) as [Hse Hen].
+    destruct (wn_span _ _ _ _ _ _ _ Hwf) as [Hse Hen].
     unfold step. destruct (N.ltb_spec p cur) as [|_]; [lia|].
     assert (Hgap : exists gap, (if cur <? p then slice ts cur p else Some []) = Some gap /\
                                map t_id gap = ids ts cur p).
@@ -309,25 +318,27 @@ Section Assemble.
       - rewrite slice_some by (fold n; lia). eexists; split; reflexivity.
       - assert (cur = p) by lia. subst. exists []. now rewrite ids_same. }
     destruct Hgap as (gap & -> & Hgap).
-    destruct (metas_at_spec p ins (wn_nonempty _ _ _ _ _ _ Hwf)) as (ms & Hmseq & Hms & Hmeta); [lia|].
+    destruct (metas_at_spec p ins (wn_nonempty _ _ _ _ _ _ _ Hwf)) as (ms & Hmseq & Hms & Hmeta); [lia|].
     unfold n in Hmseq. rewrite Hmseq.
     set (ds := filter (fun r => fst (fst r) =? p) rs).
     destruct (run_children_spec p e ds p ((out ++ map tok_tree gap) ++ ms)) as
-      (cur' & out' & Hrun & Hle & Hle' & Hwhich & Hleaves & Hincl); auto; try lia.
+      (cur' & out' & Hrun & Hle & Hle' & Hwhich & Hleaves & Hincl & Hkids); auto; try lia.
     { rewrite Forall_forall in *. intros d Hd. apply Hgood. apply filter_In in Hd. tauto. }
     { apply Forall_forall. intros d Hd. apply filter_In in Hd as [Hd Hdp]. apply N.eqb_eq in Hdp.
-      destruct (wn_nest _ _ _ _ _ _ Hwf (fst d)) as (? & ? & ?); [now apply in_map|]. lia. }
-    { apply chain_ok_filter. exact (wn_chain _ _ _ _ _ _ Hwf). }
+      destruct (wn_nest _ _ _ _ _ _ _ Hwf (fst d)) as (? & ? & ?); [now apply in_map|]. lia. }
+    { apply chain_ok_filter. exact (wn_chain _ _ _ _ _ _ _ Hwf). }
     exists cur', out'. rewrite Hrun. repeat split; auto.
     - intros k Hkk Hlt. destruct Hwhich as [->|(d & Hd & ->)]; [lia|].
       apply filter_In in Hd as [Hd Hdp]. apply N.eqb_eq in Hdp.
       destruct Hkk as [(q & Hq & <-)|(r & Hr & <-)].
-      + apply (wn_ins_out _ _ _ _ _ _ Hwf (fst d) q); [now apply in_map | assumption | lia].
-      + apply (wn_disj _ _ _ _ _ _ Hwf (fst d) (fst r)); [now apply in_map | now apply in_map | lia].
+      + apply (wn_ins_out _ _ _ _ _ _ _ Hwf (fst d) q); [now apply in_map | assumption | lia].
+      + apply (wn_disj _ _ _ _ _ _ _ Hwf (fst d) (fst r)); [now apply in_map | now apply in_map | lia].
     - rewrite Hleaves, !leaves_l_app, Hms, app_nil_r, leaves_tok_trees, Hgap, <- app_assoc.
       f_equal. apply ids_app; lia.
     - intros t Ht. apply Hincl. apply in_or_app. left. apply in_or_app. now left.
     - intros q Hq Hqp. apply Hincl. apply in_or_app. right. now apply Hmeta.
+    - intros r l t Hr Hrp Hl Ht. apply (Hkids r l t); auto.
+      apply filter_In. split; [exact Hr | now apply N.eqb_eq].
   Qed.
 
   Lemma fold_spec :
@@ -339,33 +350,37 @@ Section Assemble.
         cur <= cur' /\ cur' <= e /\
         leaves_l out' = leaves_l out ++ ids ts cur cur' /\
         (forall t, In t out -> In t out') /\
-        (forall q, In q ins -> In (fst q) ks -> In (Meta (snd q) (fst q)) out').
+        (forall q, In q ins -> In (fst q) ks -> In (Meta (snd q) (fst q)) out') /\
+        (forall r l t, In r rs -> In (fst (fst r)) ks -> snd r = Some l -> In t l -> In t out').
   Proof.
     induction ks as [|p ks IH]; intros cur out Hsort Hkp Hle Hs He.
     - exists cur, out. cbn. rewrite ids_same, app_nil_r. repeat split; auto; try lia.
     - apply StronglySorted_inv in Hsort as [Hsort Hlt].
       inversion Hkp as [|? ? Hkp1 Hkp2]; subst. inversion Hle as [|? ? Hle1 Hle2]; subst.
       destruct (step_spec p cur out Hkp1 Hs Hle1) as
-        (cur1 & out1 & Hstep & Hp1 & He1 & Hnext & Hleaves1 & Hincl1 & Hmeta1).
+        (cur1 & out1 & Hstep & Hp1 & He1 & Hnext & Hleaves1 & Hincl1 & Hmeta1 & Hkid1).
       cbn [fold_opt]. rewrite Hstep.
-      destruct (IH cur1 out1 Hsort Hkp2) as (cur' & out' & Hfold & Hc' & He' & Hleaves & Hincl & Hmeta); try lia.
+      destruct (IH cur1 out1 Hsort Hkp2) as (cur' & out' & Hfold & Hc' & He' & Hleaves & Hincl & Hmeta & Hkid); try lia.
       { rewrite Forall_forall in *. intros k Hk. apply Hnext; [now apply Hkp2 | now apply Hlt]. }
       exists cur', out'. rewrite Hfold. repeat split; auto; try lia.
       + rewrite Hleaves, Hleaves1, <- app_assoc. f_equal. apply ids_app; lia.
       + intros q Hq [Hqp|Hqk]; [|now apply Hmeta].
         apply Hincl. rewrite <- Hqp. apply Hmeta1; auto.
+      + intros r l t Hr [Hrp|Hrk] Hl Ht; [|eapply Hkid; eauto].
+        apply Hincl. eapply Hkid1; eauto.
   Qed.
 
   Lemma assemble_spec :
-    exists r, assemble ts s e m ins rs = Some r /\ leaves_l r = ids ts s e.
+    exists r, assemble ts s e m ins rs = Some r /\ leaves_l r = ids ts s e /\
+              (negb (s =? e) || negb (is_empty ins) || prod = true -> r <> []).
   Proof.
-    destruct (wn_span _ _ _ _ _ _ Hwf) as [Hse Hen].
+    destruct (wn_span _ _ _ _ _ _ _ Hwf) as [Hse Hen].
     unfold assemble.
     set (keys := sort_keys (map fst ins ++ map (fun r => fst (fst r)) rs)).
     assert (Hkeys : forall k, In k keys <-> KP k).
     { intros k. unfold keys. rewrite sort_keys_in, in_app_iff, !in_map_iff. unfold KP.
       split; intros [(x & Hx & Hin)|(x & Hx & Hin)]; [left|right|left|right]; exists x; auto. }
-    destruct (fold_spec keys s []) as (cur & out & Hfold & Hc & Hce & Hleaves & _ & Hmeta); try lia.
+    destruct (fold_spec keys s []) as (cur & out & Hfold & Hc & Hce & Hleaves & _ & Hmeta & Hkid); try lia.
     { apply sort_keys_sorted. }
     { apply Forall_forall. intros k Hk. now apply Hkeys. }
     { apply Forall_forall. intros k Hk. apply Hkeys in Hk. now apply KP_bounds in Hk. }
@@ -378,21 +393,34 @@ Section Assemble.
     destruct Htail as (tail & -> & Htail).
     assert (Hall : leaves_l (out ++ map tok_tree tail) = ids ts s e).
     { rewrite leaves_l_app, Hleaves, leaves_tok_trees, Htail. cbn [leaves_l flat_map app]. apply ids_app; lia. }
-    pose proof (wn_matched _ _ _ _ _ _ Hwf) as Hm.
+    assert (Hnonempty : negb (s =? e) || negb (is_empty ins) || prod = true -> out ++ map tok_tree tail <> []).
+    { intros Hb. apply orb_true_iff in Hb as [Hb|Hb]; [apply orb_true_iff in Hb as [Hb|Hb]|].
+      - apply negb_true_iff in Hb. apply N.eqb_neq in Hb.
+        intros Heq. rewrite Heq in Hall. cbn in Hall.
+        assert (length (ids ts s e) = N.to_nat (e - s)).
+        { unfold ids. rewrite map_length. apply slice_raw_length; [lia | exact Hen]. }
+        rewrite <- Hall in H. cbn in H. lia.
+      - apply negb_true_iff in Hb.
+        assert (Hne : ins <> []) by (intros Heq; rewrite Heq in Hb; discriminate).
+        destruct (nonempty_in ins Hne) as [q Hq].
+        assert (In (Meta (snd q) (fst q)) out).
+        { apply Hmeta; [exact Hq|]. apply Hkeys. left. exists q. split; [exact Hq | reflexivity]. }
+        intros Heq. apply app_eq_nil in Heq as [Heq _]. rewrite Heq in H. contradiction.
+      - destruct (Hprod Hb) as (r & l & Hr & Hl & Hne).
+        destruct (nonempty_in l Hne) as [t Ht].
+        assert (In t out).
+        { apply (Hkid r l t); auto. apply Hkeys. right. exists r. split; [exact Hr | reflexivity]. }
+        intros Heq. apply app_eq_nil in Heq as [Heq _]. rewrite Heq in H. contradiction. }
+    pose proof (wn_matched _ _ _ _ _ _ _ Hwf) as Hm.
     destruct m as [[k|k]|].
     - (* node *)
       assert (Hne : out ++ map tok_tree tail <> []).
-      { destruct Hm as [Hne|Hne].
-        - intros Heq. rewrite Heq in Hall. cbn in Hall.
-          assert (length (ids ts s e) = N.to_nat (e - s)).
-          { unfold ids. rewrite map_length. apply slice_raw_length; [lia | exact Hen]. }
-          rewrite <- Hall in H. cbn in H. lia.
-        - destruct (nonempty_in ins Hne) as [q Hq].
-          assert (In (Meta (snd q) (fst q)) out).
-          { apply Hmeta; [exact Hq|]. apply Hkeys. left. exists q. split; [exact Hq | reflexivity]. }
-          intros Heq. apply app_eq_nil in Heq as [-> _]. contradiction. }
+      { apply Hnonempty. destruct Hm as [Hne|[Hne|Hne]].
+        - apply orb_true_iff. left. apply orb_true_iff. left. apply negb_true_iff. now apply N.eqb_neq.
+        - apply orb_true_iff. left. apply orb_true_iff. right. destruct ins; [congruence | reflexivity].
+        - apply orb_true_iff. now right. }
       destruct (out ++ map tok_tree tail) as [|t l] eqn:Eo; [congruence|].
-      cbn [is_empty]. eexists; split; [reflexivity|].
+      cbn [is_empty]. eexists; split; [reflexivity|]. split; [|discriminate].
       cbn [leaves_l flat_map leaves]. rewrite app_nil_r. exact Hall.
     - (* newtype *)
       destruct Hm as (He1 & Hi & Hsp).
@@ -401,25 +429,42 @@ Section Assemble.
       assert (Hlen : length tail = 1%nat).
       { rewrite <- (map_length t_id), Htail. unfold ids. rewrite map_length, slice_raw_length by (fold n; lia). lia. }
       destruct tail as [|t [|? ?]]; try discriminate.
-      cbn. eexists; split; [reflexivity|]. cbn. rewrite <- Hall. reflexivity.
-    - eexists; split; [reflexivity | exact Hall].
+      cbn. eexists; split; [reflexivity|]. split; [|discriminate]. cbn. rewrite <- Hall. reflexivity.
+    - eexists; split; [reflexivity |]. split; [exact Hall | exact Hnonempty].
   Qed.
 End Assemble.
 
 (** ** apply *)
-Theorem apply_leaves ts x :
+Lemma produces_unfold x :
+  produces x = negb (mr_start x =? mr_end x) || negb (is_empty (mr_ins x)) || existsb produces (mr_ch x).
+Proof. destruct x; reflexivity. Qed.
+
+Theorem apply_leaves_strong ts x :
   wf (N.of_nat (length ts)) x = true ->
-  exists r, apply ts x = Some r /\ leaves_l r = ids ts (mr_start x) (mr_end x).
+  exists r, apply ts x = Some r /\ leaves_l r = ids ts (mr_start x) (mr_end x) /\
+            (produces x = true -> r <> []).
 Proof.
   induction x as [s e m ins ch IH] using mr_ind'. cbn [wf apply mr_start mr_end].
   rewrite andb_true_iff, forallb_forall. intros [Hch Hnode].
   apply wf_node_WFnode in Hnode.
-  apply assemble_spec.
-  - apply Forall_forall. intros r Hr. apply in_map_iff in Hr as (c & <- & Hc).
-    rewrite Forall_forall in IH. destruct (IH c Hc (Hch c Hc)) as (l & Hl & Hleaves).
-    exists l. split; [exact Hl | exact Hleaves].
+  assert (Hgood : Forall (good_r ts) (map (fun c => (mr_start c, mr_end c, apply ts c)) ch)).
+  { apply Forall_forall. intros r Hr. apply in_map_iff in Hr as (c & <- & Hc).
+    rewrite Forall_forall in IH. destruct (IH c Hc (Hch c Hc)) as (l & Hl & Hleaves & _).
+    exists l. split; [exact Hl | exact Hleaves]. }
+  destruct (assemble_spec ts s e m ins (map (fun c => (mr_start c, mr_end c, apply ts c)) ch)
+              (existsb produces ch) Hgood) as (r & Hr & Hleaves & Hne).
   - rewrite map_map. cbn [fst]. exact Hnode.
+  - intros Hex. apply existsb_exists in Hex as (c & Hc & Hpc).
+    rewrite Forall_forall in IH. destruct (IH c Hc (Hch c Hc)) as (l & Hl & _ & Hlne).
+    exists (mr_start c, mr_end c, apply ts c), l. split; [|split; [exact Hl | now apply Hlne]].
+    apply in_map_iff. exists c. split; [reflexivity | exact Hc].
+  - exists r. split; [exact Hr|]. split; [exact Hleaves|]. cbn [produces]. exact Hne.
 Qed.
+
+Theorem apply_leaves ts x :
+  wf (N.of_nat (length ts)) x = true ->
+  exists r, apply ts x = Some r /\ leaves_l r = ids ts (mr_start x) (mr_end x).
+Proof. intros H. destruct (apply_leaves_strong ts x H) as (r & Hr & Hl & _). eauto. Qed.
 
 (** ** append / wrap preserve well-formedness *)
 Definition spans (l : list mr) : list span_t := map (fun c => (mr_start c, mr_end c)) l.
@@ -427,7 +472,7 @@ Definition spans (l : list mr) : list span_t := map (fun c => (mr_start c, mr_en
 Lemma wf_unfold n x :
   wf n x = true <->
   (forall c, In c (mr_ch x) -> wf n c = true) /\
-  WFnode n (mr_start x) (mr_end x) (mr_matched x) (mr_ins x) (spans (mr_ch x)).
+  WFnode n (mr_start x) (mr_end x) (mr_matched x) (mr_ins x) (spans (mr_ch x)) (existsb produces (mr_ch x)).
 Proof.
   destruct x as [s e m ins ch]. cbn [wf mr_ch mr_start mr_end mr_matched mr_ins].
   rewrite andb_true_iff, forallb_forall, wf_node_WFnode. reflexivity.
@@ -453,12 +498,12 @@ Qed.
 Lemma flat_facts n x :
   wf n x = true ->
   (forall c, In c (flat_ch x) -> wf n c = true) /\
-  WFnode n (mr_start x) (mr_end x) None (flat_ins x) (spans (flat_ch x)).
+  WFnode n (mr_start x) (mr_end x) None (flat_ins x) (spans (flat_ch x)) (existsb produces (flat_ch x)).
 Proof.
   intros Hx. pose proof Hx as Hx'. apply wf_unfold in Hx' as [Hch Hn].
   unfold flat_ch, flat_ins. destruct (mr_matched x) as [mm|] eqn:Em; cbn [is_some].
   - split; [intros c [<-|[]]; exact Hx|].
-    destruct (wn_span _ _ _ _ _ _ Hn) as [Hse Hen].
+    destruct (wn_span _ _ _ _ _ _ _ Hn) as [Hse Hen].
     split; cbn [spans map].
     + lia.
     + intros c [<-|[]]. cbn. lia.
@@ -472,9 +517,9 @@ Proof.
     destruct Hn. split; auto.
 Qed.
 
-Lemma WFnode_append n s1 e1 i1 sp1 s2 e2 i2 sp2 :
-  WFnode n s1 e1 None i1 sp1 -> WFnode n s2 e2 None i2 sp2 -> e1 <= s2 ->
-  WFnode n s1 e2 None (i1 ++ i2) (sp1 ++ sp2).
+Lemma WFnode_append n s1 e1 i1 sp1 p1 s2 e2 i2 sp2 p2 p :
+  WFnode n s1 e1 None i1 sp1 p1 -> WFnode n s2 e2 None i2 sp2 p2 -> e1 <= s2 ->
+  WFnode n s1 e2 None (i1 ++ i2) (sp1 ++ sp2) p.
 Proof.
   intros [[A1 A1'] A2 A3 A4 A5 A6 A7 _] [[B1 B1'] B2 B3 B4 B5 B6 B7 _] Hle.
   split.
@@ -508,25 +553,24 @@ Proof.
   - unfold spans. rewrite map_app. eapply WFnode_append; [exact Hna | exact Hnb | exact Hle].
 Qed.
 
-(** [wrap] is only ever called with [Matched::SyntaxKind].  A match that is already a node is
-    kept as the single child; the result then has no inserts of its own, so it must span at
-    least one token (a zero-width node holding only metas is not wrapped again on any
-    recorded parse; the side condition is part of the monitored WF closure). *)
+(** [wrap] (only ever called with [Matched::SyntaxKind]) preserves well-formedness: a match that
+    is already a node is kept as the single child, an un-named one hands its inserts and
+    children over; the new node is non-empty because the wrapped match is. *)
 Theorem wrap_wf n x k :
-  wf n x = true ->
-  (is_some (mr_matched x) = true -> mr_start x <> mr_end x) ->
-  wf n (wrap x (MKind k)) = true.
+  wf n x = true -> wf n (wrap x (MKind k)) = true.
 Proof.
-  intros Hx Hside. unfold wrap. destruct (mr_is_empty x) eqn:Ee; [exact Hx|].
+  intros Hx. unfold wrap. destruct (mr_is_empty x) eqn:Ee; [exact Hx|].
   destruct (flat_facts n x Hx) as [Hc Hn].
   apply wf_unfold. cbn [mr_ch mr_start mr_end mr_matched mr_ins]. split; [exact Hc|].
   destruct Hn as [A1 A2 A3 A4 A5 A6 A7 _]. split; auto.
   unfold mr_is_empty, has_match in Ee. apply negb_false_iff in Ee. apply orb_true_iff in Ee.
-  unfold flat_ins. destruct (mr_matched x) as [mm|]; cbn [is_some].
-  - left. now apply Hside.
+  unfold flat_ins, flat_ch. destruct (mr_matched x) as [mm|]; cbn [is_some].
+  - (* named: the single child [x] produces *)
+    right. right. cbn [existsb]. rewrite orb_false_r, produces_unfold.
+    destruct Ee as [Ee|Ee]; rewrite Ee; [reflexivity | rewrite orb_true_r; reflexivity].
   - destruct Ee as [Ee|Ee].
     + left. apply negb_true_iff in Ee. now apply N.eqb_neq in Ee.
-    + right. apply negb_true_iff in Ee. intros Heq. rewrite Heq in Ee. discriminate.
+    + right. left. apply negb_true_iff in Ee. intros Heq. rewrite Heq in Ee. discriminate.
 Qed.
 
 (** ** root_parse *)
@@ -653,7 +697,7 @@ Proof.
   destruct (apply_leaves ts m Hwf) as (matched & Happ & Hleaves). rewrite Hs in Hleaves.
   exists matched. split; [exact Happ|]. split; [exact Hleaves|].
   assert (Hsm : mr_start m <= mr_end m).
-  { apply wf_unfold in Hwf as [_ Hn]. now destruct (wn_span _ _ _ _ _ _ Hn). }
+  { apply wf_unfold in Hwf as [_ Hn]. now destruct (wn_span _ _ _ _ _ _ _ Hn). }
   assert (Hroot : forall c, c <> [] ->
             option_map POk (node_of K_File (pre ++ c ++ post)) = Some (POk (Node K_File (pre ++ c ++ post)))).
   { intros c Hc. rewrite node_of_some; [reflexivity|]. intros Heq.
@@ -724,7 +768,7 @@ Proof.
     pose proof Hwf as Hwf'. unfold wf_root in Hwf'. repeat rewrite andb_true_iff in Hwf'.
     destruct Hwf' as [[Hwfm Hs] He]. apply N.eqb_eq in Hs. apply N.leb_le in He.
     assert (Hsm : mr_start m <= mr_end m).
-    { apply wf_unfold in Hwfm as [_ Hn]. now destruct (wn_span _ _ _ _ _ _ Hn). }
+    { apply wf_unfold in Hwfm as [_ Hn]. now destruct (wn_span _ _ _ _ _ _ _ Hn). }
     assert (Hsum : forall mid, mid = ids ts (start_idx ts) (end_idx ts) ->
               leaves_l (map tok_tree (slice_raw ts 0 (start_idx ts))) ++ mid ++
               leaves_l (map tok_tree (slice_raw ts (end_idx ts) (N.of_nat (length ts)))) = map t_id ts).
